@@ -833,7 +833,7 @@ Section Delivery.
     2:{ apply (pout_weaken Nice2); [tauto|exact H]. }
     destruct (a_close_obj p) eqn:Hcl; [|apply (pout_weaken Nice2); [tauto|exact H]].
     cbn [POut] in H. destruct H as [(S1 & M1 & L1)|[(H1 & H2)|(H1 & H2 & H3)]].
-    - pose proof S1 as (St1 & Dy1 & _). rewrite (st_state _ St1).
+    - pose proof S1 as (St1 & Dy1 & _). rewrite (st_state _ St1), (st_writer _ St1).
       destruct (error_res o1 c1 _ true (st_writer _ St1)) as (o2 & Hcp & Hst). rewrite Hcp. cbn [POut].
       right; right. split; [right; exact Hst|]. split; [|intros [_ G']; exact (G' Hcl o1 c1 S1 M1 L1)].
       eapply shape_err; [apply (dy_log _ _ Dy1)|reflexivity|right; reflexivity].
@@ -1189,6 +1189,51 @@ Proof.
     - destruct pre' as [|y pre']; cbn [app] in Eq; inversion Eq; subst; [congruence|].
       destruct (IH pre' H1) as [-> ->]. split; reflexivity. }
   destruct D as [-> ->]. exact R.
+Qed.
+
+(* D44: the close-object flag premise restricted to the packets [pkts2] that FOLLOW a prefix [pkts1] whose own flags do
+   not matter (the packets received before the FDT instance: a flag is ignored while the object has no writer);
+   [rec] = recoverable / rs_recoverable / fq_recoverable oti L.  It follows from close_flag_ok of pkts1 ++ pkts2. *)
+Definition close_flag_ok_after (rec : list apkt -> bool) (pkts1 pkts2 : list apkt) : Prop :=
+  forall pre p post, pkts2 = pre ++ p :: post -> a_close_obj p = true -> rec (pkts1 ++ pre ++ [p]) = true.
+
+Lemma close_flag_ok_after_of_whole (rec : list apkt -> bool) pkts1 pkts2 :
+  (forall pre p post, pkts1 ++ pkts2 = pre ++ p :: post -> a_close_obj p = true -> rec (pre ++ [p]) = true) ->
+  close_flag_ok_after rec pkts1 pkts2.
+Proof.
+  intros H pre p post Eq Hp. rewrite app_assoc. apply (H (pkts1 ++ pre) p post); [|exact Hp].
+  rewrite Eq, <- app_assoc. reflexivity.
+Qed.
+
+Lemma close_flag_ok_after_noflag (rec : list apkt -> bool) pkts1 pkts2 :
+  Forall (fun p => a_close_obj p = false) pkts2 -> close_flag_ok_after rec pkts1 pkts2.
+Proof.
+  intros F pre p post -> Hp. rewrite Forall_forall in F.
+  assert (a_close_obj p = false) by (apply F; apply in_or_app; right; left; reflexivity). congruence.
+Qed.
+
+(* the flag only on the last packet of pkts2, the whole being recoverable (a last transfer after the early packets) *)
+Lemma close_flag_ok_after_last (rec : list apkt -> bool) pkts1 body lst :
+  Forall (fun q => a_close_obj q = false) body -> rec (pkts1 ++ body ++ [lst]) = true ->
+  close_flag_ok_after rec pkts1 (body ++ [lst]).
+Proof.
+  intros F R pre' q post Eq Hq.
+  assert (D : pre' = body /\ q = lst).
+  { clear R. revert pre' Eq. induction F as [|x body Hx F IH]; intros pre' Eq.
+    - destruct pre' as [|y pre']; cbn [app] in Eq; inversion Eq; subst; [split; reflexivity|].
+      destruct pre'; discriminate.
+    - destruct pre' as [|y pre']; cbn [app] in Eq; inversion Eq; subst; [congruence|].
+      destruct (IH pre' H1) as [-> ->]. split; reflexivity. }
+  destruct D as [-> ->]. exact R.
+Qed.
+
+(* from the flag premise of pkts2 alone, when [rec] is monotone (more packets never hurt) *)
+Lemma close_flag_ok_after_of_tail (rec : list apkt -> bool) pkts1 pkts2 :
+  (forall l l', incl l l' -> rec l = true -> rec l' = true) ->
+  (forall pre p post, pkts2 = pre ++ p :: post -> a_close_obj p = true -> rec (pre ++ [p]) = true) ->
+  close_flag_ok_after rec pkts1 pkts2.
+Proof.
+  intros Mono H pre p post Eq Hp. apply (Mono (pre ++ [p])); [apply incl_appr, incl_refl|]. exact (H pre p post Eq Hp).
 Qed.
 
 Definition nocode_ok (oti : roti) (L : N) : Prop :=
